@@ -95,17 +95,53 @@ func foldsAllMiddlewares(c *Ctx, rule string, fn *ssa.Function) {
 			if !ok {
 				return false
 			}
-			return derivesFrom(cl.Call.Value, func(y ssa.Value) bool { return isLoadOf(y, "Middlewares") })
+			if derivesFrom(cl.Call.Value, func(y ssa.Value) bool { return isLoadOf(y, "Middlewares") }) {
+				return true
+			}
+			// a fold helper of the module that is handed route.Middlewares: judged in the helper, on its parameter
+			sf := staticFn(cl)
+			if sf == nil || sf.Pkg == nil || !strings.HasPrefix(sf.Pkg.Pkg.Path(), modPath) {
+				return false
+			}
+			for i, a := range cl.Call.Args {
+				if i >= len(sf.Params) || !isLoadOf(a, "Middlewares") {
+					continue
+				}
+				p := sf.Params[i]
+				isP := func(y ssa.Value) bool { return y == ssa.Value(p) }
+				folds := false
+				eachInstr(sf, func(_ *ssa.BasicBlock, _ int, in ssa.Instruction) {
+					ret, ok := in.(*ssa.Return)
+					if !ok || len(ret.Results) == 0 {
+						return
+					}
+					if derivesFrom(ret.Results[0], func(y ssa.Value) bool {
+						ic, ok := y.(*ssa.Call)
+						return ok && derivesFrom(ic.Call.Value, isP)
+					}) {
+						folds = true
+					}
+				})
+				if folds {
+					foldCoverage(c, rule, sf, isP)
+					return true
+				}
+			}
+			return false
 		})
 		c.ob(rule, fnKey(fn)+"#handler-call-"+itoa(n), call.Pos(), viaMw, "the dispatcher invokes route.Handler without folding route.Middlewares over it: declared auth and rate limits are bypassed")
 	})
 	if n == 0 {
 		c.ob(rule, fnKey(fn)+"#handler-call", fn.Pos(), false, "dispatcher does not invoke a handler derived from route.Handler")
 	}
-	// loop coverage: the index used on route.Middlewares is an induction variable whose range covers 0..len-1
+	foldCoverage(c, rule, fn, func(v ssa.Value) bool { return isLoadOf(v, "Middlewares") })
+}
+
+// foldCoverage: the index used on the middleware list (isMws) in fn is an induction variable whose range covers 0..len-1.
+func foldCoverage(c *Ctx, rule string, fn *ssa.Function, isMws func(ssa.Value) bool) {
 	eachInstr(fn, func(_ *ssa.BasicBlock, _ int, ins ssa.Instruction) {
 		ia, ok := ins.(*ssa.IndexAddr)
-		if !ok || !isLoadOf(ia.X, "Middlewares") {
+		if !ok || !isMws(ia.X) {
 			return
 		}
 		phi, ok := ia.Index.(*ssa.Phi)
@@ -124,7 +160,7 @@ func foldsAllMiddlewares(c *Ctx, rule string, fn *ssa.Function) {
 		}
 		shape, good := inductionCoversAll(phi, ia.Index, func(v ssa.Value) bool {
 			cl, ok := v.(*ssa.Call)
-			return ok && callName(cl) == "builtin.len" && isLoadOf(cl.Call.Args[0], "Middlewares")
+			return ok && callName(cl) == "builtin.len" && isMws(cl.Call.Args[0])
 		})
 		if shape == "" {
 			c.info(rule, fnKey(fn)+"#middleware-loop-shape", ia.Pos(), "unrecognised loop shape over route.Middlewares; coverage of all indexes not decided")
@@ -334,16 +370,7 @@ func runC06(c *Ctx) {
 				return
 			}
 			// the *ast.Route the handler was made from
-			var src ssa.Value
-			derivesFrom(h, func(v ssa.Value) bool {
-				if typeIs(v.Type(), astPath, "Route") {
-					if _, isP := v.Type().(*types.Pointer); isP {
-						src = v
-						return true
-					}
-				}
-				return false
-			})
+			src, nSites := handlerSourceRoute(c, "C06-R1", fn, h)
 			if src == nil {
 				// a route that re-registers another route's handler (an alias: HEAD for GET, a second path) must carry
 				// that route's middleware chain as well: the dispatcher applies the chain of the route it matched
@@ -370,7 +397,7 @@ func runC06(c *Ctx) {
 				}
 				return // not built from a declared route (e.g. internal endpoints)
 			}
-			n++
+			n += nSites // a literal in a constructor helper stands for each registration path that calls the helper
 			mw := stores["Middlewares"]
 			ok2 := mw != nil && derivesFrom(mw, func(v ssa.Value) bool {
 				cl, ok := v.(*ssa.Call)
